@@ -2,7 +2,7 @@
    (2 examples, |P| = 1, dense rows of M with default 1, identity kernel matrix), and small witnesses. *)
 From Coq Require Import QArith Qminmax Lqa Arith Bool List Lia.
 From SharkV Require Import C08Model C08Defs C08Aux C08Proofs C16Model C16State C16Proofs C16ProofsMc C16StateDefs
-  C16InitProofs C16ShrinkProofs C16HistProofs C16Linear C16LinearProofs.
+  C16InitProofs C16ShrinkProofs C16HistProofs C16Linear C16LinearProofs C16Bias C16BiasProofs.
 Import ListNotations.
 Open Scope Q_scope.
 
@@ -55,4 +55,16 @@ Proof.
   split.
   - intros c d Hc Hd. cbn [sumn]. rewrite wstep_zero. ring.
   - split; [intros i; cbn [fst]; lra | intros d Hd; cbn [fst snd sumn]; ring].
+Qed.
+
+Lemma w_bias_hyps :
+  Inv_all 1 2 2 1 wMrow wMdef wK0 wy0 (lin_of 1 (fun _ => [(0%nat, 1)]) wy0 wlin0 (fun _ => 0)) false ws0 /\
+  wf_brun 1 2 2 1 wMrow wMdef wK0 (fun _ => [(0%nat, 1)]) wy0 false true (ws0, fun _ => 0) [BStep (fun _ => 1 # 4); BSolve [MSmo 0%nat 1%nat]].
+Proof.
+  destruct w_hyps as (_ & _ & _ & _ & _ & A1 & A2 & A3 & A4 & _). split.
+  - apply (Inv_all_lin_ext 1 2 2 1 wMrow wMdef wK0 wy0 wlin0).
+    + intros i p. unfold lin_of. cbn [Lsum]. ring.
+    + split; [exact A1|]. split; [exact A2|]. split; [exact A3 | exact A4].
+  - cbn [wf_brun]. split; [exact I|]. split; [|exact I]. split; [|repeat constructor].
+    cbn [wf_mrun wf_mop bstep fst]. split; [|exact I]. cbn. lia.
 Qed.
